@@ -4,6 +4,7 @@ package main
 // (cli.CliConfig, or the config type of one registered plugin), exhaustive over paths.
 
 import (
+	"crypto/sha1"
 	"fmt"
 	"math/rand"
 	"reflect"
@@ -13,9 +14,11 @@ import (
 	"time"
 )
 
-const propFile = "/var/tmp/c17-props/p.properties"
+const propDir = "/var/tmp/c17-props"
 
-// environment variables / properties the placeholder cases use (set by the driver at start-up)
+// environment variables the placeholder cases use. Every input line carries the variables it needs (env=m(...)); the
+// driver sets them before it decodes (names are fixed per value: a name never has two values, so parallel cases
+// cannot disturb each other). C17_UNSET is never set.
 var envTable = map[string]string{
 	"C17_STR":   "hello",
 	"C17_INT":   "42",
@@ -30,9 +33,59 @@ var envTable = map[string]string{
 	"C17_300":   "300",
 }
 
-// C17_UNSET is never set.
+// the keys of the standard properties file and their values
 var propTable = map[string]string{
 	"str": "hello", "int": "42", "neg": "-1", "float": "2.5", "true": "true", "false": "false", "dur": "7s", "ep": "127.0.0.3:7070",
+}
+
+// a decoy value of the same kind (accepted silently by the target field if the wrong line is taken)
+var propDecoy = map[string]string{
+	"str": "decoy", "int": "1000", "neg": "-7", "float": "9.25", "true": "false", "false": "true", "dur": "9s", "ep": "127.0.0.9:9999",
+}
+
+// a properties file: its lines in file order. The path is derived from the content, the driver writes the file when
+// an input names it (props=m(path,l(s(line),...))).
+type propFileT struct {
+	path  string
+	lines []string
+}
+
+func mkPropFile(lines []string) propFileT {
+	h := sha1.Sum([]byte(strings.Join(lines, "\n")))
+	return propFileT{path: fmt.Sprintf("%s/p-%x.properties", propDir, h[:6]), lines: lines}
+}
+
+// stdProps: every key is surrounded by lines that a sloppy lookup would take instead: a longer key with the same
+// prefix / suffix, another letter case, blanks around the key, the bare key without `=`, a later duplicate.
+// Only the line `key=value` (text before the FIRST `=` equal to the key, first such line) is the property.
+var stdProps = func() propFileT {
+	lines := []string{"# written by the C17 driver", "", "nosuch_key=1", "xnosuch=2", "NOSUCH=3", " nosuch =4", "nosuch"}
+	for _, k := range sortedKeys(propTable) {
+		d := propDecoy[k]
+		lines = append(lines,
+			k+"_max="+d, "x"+k+"="+d, strings.ToUpper(k)+"="+d, " "+k+" ="+d, k, k+" ="+d, " "+k+"="+d,
+			k+"="+propTable[k],
+			k+"="+d)
+	}
+	lines = append(lines, "eq=a=b", "=novalue-key", "empty=")
+	return mkPropFile(lines)
+}()
+
+var propFile = stdProps.path
+
+// refLookup: the property `key` of a file per docs/eng/config.md (`MY_FIELD=data`): the first line whose text before
+// the first `=` is exactly the key
+func refLookup(lines []string, key string) (string, bool) {
+	for _, l := range lines {
+		i := strings.IndexByte(l, '=')
+		if i < 0 {
+			continue
+		}
+		if l[:i] == key {
+			return l[i+1:], true
+		}
+	}
+	return "", false
 }
 
 func sortedKeys(m map[string]string) []string {
@@ -44,20 +97,30 @@ func sortedKeys(m map[string]string) []string {
 	return ks
 }
 
-func envTerm() string {
+func envTermOf2(all map[string]string) string {
 	var xs []string
-	for _, k := range sortedKeys(envTable) {
-		xs = append(xs, enc(k), tstr(envTable[k]))
+	for _, k := range sortedKeys(all) {
+		xs = append(xs, enc(k), tstr(all[k]))
 	}
 	return node("m", xs...)
 }
 
-func propsTerm() string {
+func propsTermOf(files []propFileT) string {
 	var xs []string
-	for _, k := range sortedKeys(propTable) {
-		xs = append(xs, enc(k), tstr(propTable[k]))
+	for _, f := range files {
+		var ls []string
+		for _, l := range f.lines {
+			ls = append(ls, tstr(l))
+		}
+		xs = append(xs, enc(f.path), node("l", ls...))
 	}
-	return node("m", enc(propFile), node("m", xs...))
+	return node("m", xs...)
+}
+
+// envName: the variable that holds a generated value (one name per value)
+func envName(val string) string {
+	h := sha1.Sum([]byte(val))
+	return fmt.Sprintf("C17_R_%X", h[:5])
 }
 
 // ---- configuration values
@@ -269,6 +332,8 @@ type gcase struct {
 	exp  string // reject | accept | value | cast
 	cfg  any
 	uses bool // cfg contains a placeholder
+	env  map[string]string // generated variables the case needs besides envTable
+	files []propFileT      // properties files the case needs besides the standard one
 }
 
 type walker struct {
@@ -485,6 +550,10 @@ func (w *walker) scalarCases(fpath string, f flatField, fk string, tags []string
 	if base == "dur" {
 		w.add(gcase{kind: "mistyped", path: fpath, at: "-", exp: "reject", cfg: set("5x")})
 	}
+	if base == "int" || base == "uint" || base == "dur" {
+		// a number with a fractional part is no integer (times: 2.7); a whole float is (JSON numbers are floats)
+		w.add(gcase{kind: "mistyped", path: fpath + "#fraction", at: "-", exp: "reject", cfg: set(2.5)})
+	}
 	// out of range, one per validate tag
 	for _, t := range tags {
 		switch {
@@ -508,8 +577,16 @@ func (w *walker) scalarCases(fpath string, f flatField, fk string, tags []string
 				continue
 			}
 			w.add(gcase{kind: "oor", path: fpath + "#" + t, at: "-", exp: "reject", cfg: set(n - 1)})
+			if _, req := hasTag(tags, "required"); !req || n != 0 {
+				// the bound itself is allowed
+				w.add(gcase{kind: "valid", path: fpath + "#" + t + "-bound", at: "-", exp: "accept", cfg: set(n)})
+			}
 		case strings.HasPrefix(t, "min-time="):
 			w.add(gcase{kind: "oor", path: fpath + "#" + t, at: "-", exp: "reject", cfg: set("100us")})
+			if d, err := time.ParseDuration(strings.TrimPrefix(t, "min-time=")); err == nil && d > time.Microsecond {
+				w.add(gcase{kind: "valid", path: fpath + "#" + t + "-bound", at: "-", exp: "accept", cfg: set(d.String())})
+				w.add(gcase{kind: "oor", path: fpath + "#" + t + "-below", at: "-", exp: "reject", cfg: set((d - 1).String())})
+			}
 		case t == "endpoint":
 			w.add(gcase{kind: "oor", path: fpath + "#endpoint", at: "-", exp: "reject", cfg: set("no-port")})
 			w.add(gcase{kind: "oor", path: fpath + "#endpoint", at: "-", exp: "reject", cfg: set("127.0.0.1:99999")})
@@ -564,9 +641,26 @@ func (w *walker) scalarCases(fpath string, f flatField, fk string, tags []string
 		p = pv{"C17_DUR", "dur", "7s"}
 	}
 	w.add(gcase{kind: "valid", path: fpath, at: at, fk: fk, exp: "value", want: want, cfg: set(valid)})
+	_, minTime := hasTag(tags, "min-time")
+	if base == "int" || base == "uint" || (base == "dur" && !minTime) {
+		ww := node("i", "17")
+		if base == "uint" {
+			ww = node("u", "17")
+		}
+		w.add(gcase{kind: "valid", path: fpath + "#whole-float", at: at, fk: fk, exp: "value", want: ww, cfg: set(17.0)})
+	}
 	if p.env != "" {
 		w.add(gcase{kind: "ph-env", path: fpath, at: at, fk: fk, raw: p.raw, exp: "cast", cfg: set(ph("env", p.env)), uses: true})
 		w.add(gcase{kind: "ph-prop", path: fpath, at: at, fk: fk, raw: p.raw, exp: "cast", cfg: set(ph("property", p.prop)), uses: true})
+	}
+	if p.env != "" {
+		// the tag type is case-insensitive (resolvers are registered and looked up lower-cased)
+		w.add(gcase{kind: "ph-upper", path: fpath, at: at, fk: fk, raw: p.raw, exp: "cast", cfg: set("${ENV:" + p.env + "}"), uses: true})
+		w.add(gcase{kind: "ph-upper", path: fpath, at: at, fk: fk, raw: p.raw, exp: "cast", cfg: set("${Property:" + propFile + "#" + p.prop + "}"), uses: true})
+		// blanks inside the braces are trimmed
+		w.add(gcase{kind: "ph-inner", path: fpath, at: at, fk: fk, raw: p.raw, exp: "cast", cfg: set("${ env : " + p.env + " }"), uses: true})
+		// blanks around the placeholder stay part of the text: no demand, the outcome is compared with the model
+		w.add(gcase{kind: "ph-space", path: fpath, at: "-", fk: fk, exp: "none", cfg: set(" " + ph("env", p.env) + " "), uses: true})
 	}
 	w.add(gcase{kind: "ph-unset", path: fpath, at: "-", fk: fk, exp: "reject", cfg: set(ph("env", "C17_UNSET")), uses: true})
 	w.add(gcase{kind: "ph-noprop", path: fpath, at: "-", fk: fk, exp: "reject", cfg: set(ph("property", "nosuch")), uses: true})
@@ -576,6 +670,11 @@ func (w *walker) scalarCases(fpath string, f flatField, fk string, tags []string
 		if !isEP && !isEq {
 			w.add(gcase{kind: "ph-embed", path: fpath, at: at, fk: fk, exp: "value", want: tstr("a-hello-b"), cfg: set("a-${env:C17_STR}-b"), uses: true})
 			w.add(gcase{kind: "ph-short", path: fpath, at: at, fk: fk, raw: "hello", exp: "cast", cfg: set("${C17_STR}"), uses: true})
+			w.add(gcase{kind: "ph-multi", path: fpath, at: at, fk: fk, exp: "value", want: tstr("hellohello"), cfg: set("${env:C17_STR}${env:C17_STR}"), uses: true})
+			w.add(gcase{kind: "ph-multi", path: fpath, at: at, fk: fk, exp: "value", want: tstr("[hello: 42-hello]"),
+				cfg: set("[${env:C17_STR}: ${C17_INT}-" + ph("property", "str") + "]"), uses: true})
+			w.add(gcase{kind: "ph-unset", path: fpath + "#second", at: "-", fk: fk, exp: "reject", cfg: set("${env:C17_STR}-${env:C17_UNSET}"), uses: true})
+			w.add(gcase{kind: "ph-empty", path: fpath, at: "-", fk: fk, exp: "none", cfg: set("x${env:C17_EMPTY}y"), uses: true})
 		}
 	case "uint":
 		// the confirmed defect: -1 into an unsigned field
@@ -598,6 +697,22 @@ func (w *walker) walkPlugin(fpath string, iface reflect.Type, set func(any) any,
 	w.add(gcase{kind: "mistyped", path: fpath, at: "-", exp: "reject", cfg: set(5)})
 	w.add(gcase{kind: "plugin-notype", path: fpath, at: "-", exp: "reject", cfg: set(map[string]any{"zz": 1})})
 	w.add(gcase{kind: "plugin-badname", path: fpath, at: "-", exp: "reject", cfg: set(map[string]any{"type": "no-such-plugin"})})
+	w.add(gcase{kind: "plugin-nonstring", path: fpath, at: "-", exp: "reject", cfg: set(map[string]any{"type": 5})})
+	if bp, ok := basePlugin(iface).(map[string]any); ok {
+		// the `type` key in another letter case is the type key; two of them are one too many
+		up := map[string]any{}
+		for k, v := range bp {
+			if k == "type" {
+				up["TYPE"] = v
+			} else {
+				up[k] = v
+			}
+		}
+		w.add(gcase{kind: "plugin-typecase", path: fpath, at: "-", exp: "accept", cfg: set(up)})
+		two := cloneMap(bp)
+		two["Type"] = bp["type"]
+		w.add(gcase{kind: "plugin-twotypes", path: fpath, at: "-", exp: "reject", cfg: set(two)})
+	}
 	switch iface.String() {
 	case sinkIface:
 		w.add(gcase{kind: "plugin-short", path: fpath, at: "-", exp: "accept", cfg: set("stderr")})
@@ -605,6 +720,17 @@ func (w *walker) walkPlugin(fpath string, iface reflect.Type, set func(any) any,
 	case schedIface:
 		w.add(gcase{kind: "plugin-short", path: fpath, at: "-", exp: "accept", cfg: set([]any{map[string]any{"type": "once", "times": 2}})})
 		w.add(gcase{kind: "unknown", path: fpath + "[0]/zz_unknown", at: "-", exp: "reject", cfg: set([]any{map[string]any{"type": "once", "times": 2, "zz_unknown": 1}})})
+	}
+	// a block that names the plugin and nothing else: the plugin's default config is decoded from an empty mapping and
+	// VALIDATED like any other; it is refused exactly when the defaults do not meet the config's own constraints
+	for _, name := range altNames(iface) {
+		a := reg[iface][name]
+		d := freshDefault(iface, name)
+		exp := "accept"
+		if len(baseFor(a.confType, d.Elem())) > 0 {
+			exp = "reject"
+		}
+		w.add(gcase{kind: "typeonly", path: fpath + "(" + name + ")", at: "-", exp: exp, cfg: set(map[string]any{"type": name})})
 	}
 	if pdepth >= w.maxPlugin {
 		return
@@ -644,6 +770,12 @@ type synthConfig struct {
 	Tags map[string]string   `config:"tags"`
 	Any  interface{}         `config:"any"`
 	Emb  synthEmb            `config:",squash"`
+	// one field without constraints per kind (generated placeholder values land here)
+	I64   int64         `config:"i64"`
+	U64   uint64        `config:"u64"`
+	Note  string        `config:"note"`
+	Pause time.Duration `config:"pause"`
+	Flag  bool          `config:"flag"`
 }
 
 type synthSub struct {
@@ -682,8 +814,26 @@ func rootTarget(root string) (reflect.Type, reflect.Value) {
 
 func (c gcase) line() string {
 	env, props := "m()", "m()"
+	cfgText := valTerm(c.cfg)
 	if c.uses {
-		env, props = envTerm(), propsTerm()
+		// only what the configuration names: the variables and the properties files of its placeholders
+		vars := map[string]string{}
+		for _, m := range []map[string]string{envTable, c.env} {
+			for k, v := range m {
+				if strings.Contains(cfgText, k+"}") {
+					vars[k] = v
+				}
+			}
+		}
+		var files []propFileT
+		seen := map[string]bool{}
+		for _, f := range append([]propFileT{stdProps}, c.files...) {
+			if strings.Contains(cfgText, f.path+"#") && !seen[f.path] {
+				seen[f.path] = true
+				files = append(files, f)
+			}
+		}
+		env, props = envTermOf2(vars), propsTermOf(files)
 	}
 	opt := func(s string) string {
 		if s == "" {
@@ -692,7 +842,7 @@ func (c gcase) line() string {
 		return s
 	}
 	return fmt.Sprintf("kind=%s root=%s path=%s exp=%s at=%s fk=%s raw=%s want=%s env=%s props=%s cfg=%s",
-		c.kind, enc(c.root), enc(c.path), c.exp, enc(c.at), opt(c.fk), tstr(c.raw), opt(c.want), env, props, valTerm(c.cfg))
+		c.kind, enc(c.root), enc(c.path), c.exp, enc(c.at), opt(c.fk), tstr(c.raw), opt(c.want), env, props, cfgText)
 }
 
 func allRoots() []string {
@@ -761,13 +911,168 @@ func combos(r *rand.Rand, cases []gcase, n int) []string {
 		cfg := c.cfg
 		uses := c.uses
 		path := c.kind + ":" + c.path
+		env := map[string]string{}
+		for k, v := range c.env {
+			env[k] = v
+		}
+		files := append([]propFileT{}, c.files...)
 		for j := 1; j < k; j++ {
 			d := cases[r.Intn(len(cases))]
 			cfg = deepMerge(cfg, d.cfg)
 			uses = uses || d.uses
 			path += "+" + d.kind + ":" + d.path
+			for k, v := range d.env {
+				env[k] = v
+			}
+			files = append(files, d.files...)
 		}
-		out = append(out, gcase{kind: "combo", root: c.root, path: path, at: "-", exp: "none", cfg: cfg, uses: uses}.line())
+		out = append(out, gcase{kind: "combo", root: c.root, path: path, at: "-", exp: "none", cfg: cfg, uses: uses, env: env, files: files}.line())
+	}
+	return out
+}
+
+// ---- generated placeholder values and properties files (synthetic root: one untagged field per kind)
+
+type synthField struct{ key, name, fk string }
+
+var synthFields = []synthField{
+	{"u8", "U8", "uint:8"}, {"u16", "U16", "uint:16"}, {"u", "U", "uint:64"}, {"u64", "U64", "uint:64"},
+	{"i8", "I8", "int:8"}, {"i16", "I16", "int:16"}, {"i32", "I32", "int:32"}, {"i64", "I64", "int:64"},
+	{"f32", "F32", "float:32"}, {"F64", "F64", "float:64"}, {"note", "Note", "str"}, {"pause", "Pause", "dur"}, {"flag", "Flag", "bool"},
+}
+
+// texts inside the literal grammar the model describes (decimal integers without leading zeros, plain decimals that are
+// exact in binary, Go durations with integer components, strconv.ParseBool's words) and texts that are no literal at all
+var rawPool = map[string][]string{
+	"int": {"0", "1", "-1", "+7", "-0", "42", "127", "128", "-128", "-129", "255", "256", "32767", "32768", "-32768", "-32769",
+		"65535", "65536", "2147483647", "2147483648", "-2147483648", "-2147483649", "4294967295", "4294967296",
+		"9223372036854775807", "9223372036854775808", "-9223372036854775808", "-9223372036854775809",
+		"18446744073709551615", "18446744073709551616", "abc", "1.5", "", " 42", "4 2", "-", "+", "--1", "1-", "true", "7s"},
+	"float": {"0", "1", "-1", "2.5", "-0.5", "+0.25", "100", "0.125", "12345.5", "-0.0", "abc", "", "1.2.3", "-", "1,5", "true"},
+	"bool":  {"1", "t", "T", "TRUE", "true", "True", "0", "f", "F", "FALSE", "false", "False", "yes", "no", "tRuE", "", "2", "on", " true"},
+	"dur": {"0", "7s", "1m30s", "250ms", "-5s", "+3s", "1h2m3s4ms5us6ns", "90m", "1000", "-1", "5x", "s", "1s2", "", "abc", "1 s", "--1s",
+		"9223372036854775807", "9223372036854775808", "2562047h"},
+	"str": {"", "hello", "a b", "with=eq", "with#hash", "${env:C17_STR}", "x:y", "%41", "ü", "tab\there", "'q'", "{}", "$", "${", "}"},
+}
+
+func poolFor(fk string) []string {
+	base := strings.SplitN(fk, ":", 2)[0]
+	if base == "uint" {
+		base = "int"
+	}
+	return rawPool[base]
+}
+
+func synthBase() map[string]any {
+	t, d := rootTarget("synth")
+	return baseFor(t, d.Elem())
+}
+
+func rawCases(r *rand.Rand, tier string) []gcase {
+	var out []gcase
+	base := synthBase()
+	for _, f := range synthFields {
+		pool := poolFor(f.fk)
+		for _, raw := range pool {
+			if tier == "quick" && r.Intn(100) >= 22 {
+				continue
+			}
+			m := cloneMap(base)
+			name := envName(raw)
+			viaProp := r.Intn(3) == 0 && !strings.ContainsAny(raw, "\n\r")
+			c := gcase{kind: "ph-raw", path: "/" + f.key, at: f.name, fk: f.fk, raw: raw, exp: "cast", uses: true}
+			if viaProp {
+				pf := mkPropFile([]string{"k_=0", "k=" + raw, "k=1"})
+				m[f.key] = "${property:" + pf.path + "#k}"
+				c.files = []propFileT{pf}
+			} else {
+				m[f.key] = "${env:" + name + "}"
+				c.env = map[string]string{name: raw}
+			}
+			c.cfg = m
+			out = append(out, c)
+		}
+	}
+	return out
+}
+
+var propKeyPool = []string{"a", "ab", "abc", "b", "ba", "a_b", "A", "a.b", "timeout", "timeout_ms", "instances", "instances_max", ""}
+
+func randPropLine(r *rand.Rand) string {
+	k := propKeyPool[r.Intn(len(propKeyPool))]
+	v := []string{"1", "22", "x", "y z", "", "v=w", "3s"}[r.Intn(7)]
+	switch r.Intn(12) {
+	case 0:
+		return k // no `=`
+	case 1:
+		return " " + k + "=" + v
+	case 2:
+		return k + " =" + v
+	case 3:
+		return "#" + k + "=" + v
+	case 4:
+		return ""
+	case 5:
+		return k + "==" + v
+	case 6:
+		return strings.ToUpper(k) + "=" + v
+	}
+	return k + "=" + v
+}
+
+// propCases: properties files whose keys are prefixes / case variants of one another, in every order; the expected
+// text is refLookup's (first line whose text before the first `=` IS the key), a key that is on no such line is an error
+func propCases(r *rand.Rand, tier string) []gcase {
+	var out []gcase
+	base := synthBase()
+	add := func(kind string, lines []string, key string, field synthField) {
+		pf := mkPropFile(lines)
+		m := cloneMap(base)
+		m[field.key] = "${property:" + pf.path + "#" + key + "}"
+		c := gcase{kind: kind, path: "/" + field.key + "#" + key, fk: field.fk, uses: true, files: []propFileT{pf}, cfg: m}
+		if raw, ok := refLookup(lines, key); ok {
+			c.at, c.raw, c.exp = field.name, raw, "cast"
+		} else {
+			c.at, c.exp = "-", "reject"
+			c.kind = "ph-noprop"
+		}
+		out = append(out, c)
+	}
+	note, i64, pause := synthFields[10], synthFields[7], synthFields[11]
+	// the documented shape, and keys that are proper prefixes of one another in both orders
+	add("ph-propx", []string{"MY_FIELD=data"}, "MY_FIELD", note)
+	add("ph-propx", []string{"MY_FIELD=data"}, "MY_FIEL", note)
+	add("ph-propx", []string{"MY_FIELD=data"}, "MY_FIELD_", note)
+	add("ph-propx", []string{"MY_FIELD=data"}, "my_field", note)
+	add("ph-propx", []string{"instances_max=1000"}, "instances", i64)
+	add("ph-propx", []string{"instances_max=1000", "instances=10"}, "instances", i64)
+	add("ph-propx", []string{"instances=10", "instances_max=1000"}, "instances_max", i64)
+	add("ph-propx", []string{"timeout_ms=250", "timeout=3s"}, "timeout", pause)
+	add("ph-propx", []string{"timeout=3s", "timeout_ms=250"}, "timeout_ms", i64)
+	add("ph-propx", []string{"host=example.org"}, "ho", note)
+	add("ph-propx", []string{"a=1", "a=2"}, "a", i64)
+	add("ph-propx", []string{"a", "a=b=c"}, "a", note)
+	add("ph-propx", []string{" a=1", "a =2", "A=3"}, "a", i64)
+	add("ph-propx", []string{"k=v"}, "", note)
+	add("ph-propx", []string{"=v"}, "", note)
+	add("ph-propx", []string{}, "a", note)
+	for _, k := range sortedKeys(propTable) {
+		// the standard file: the decoy lines around every key
+		for _, key := range []string{k + "_max", "x" + k, strings.ToUpper(k), k + "_", k[:len(k)-1]} {
+			add("ph-propx", stdProps.lines, key, note)
+		}
+	}
+	n := 40
+	if tier == "thorough" {
+		n = 1500
+	}
+	for i := 0; i < n; i++ {
+		var lines []string
+		for j, k := 0, r.Intn(6); j <= k; j++ {
+			lines = append(lines, randPropLine(r))
+		}
+		key := propKeyPool[r.Intn(len(propKeyPool))]
+		add("ph-propr", lines, key, note)
 	}
 	return out
 }
@@ -781,9 +1086,14 @@ func genCases(r *rand.Rand, tier string) []string {
 			w.maxPlugin = 3
 		}
 		w.walkStruct("", t, d.Elem(), func(m map[string]any) any { return m }, []string{}, 0)
+		if root == "synth" {
+			for _, c := range append(rawCases(r, tier), propCases(r, tier)...) {
+				w.add(c)
+			}
+		}
 		for _, c := range w.out {
-			if tier == "quick" && root == "cli" && c.kind != "unknown" && c.kind != "misspelled" && c.kind != "base" {
-				// the cli root repeats every plugin's cases below pools[0]: unknown keys exhaustively, the rest sampled
+			if tier == "quick" && root == "cli" && c.kind != "unknown" && c.kind != "misspelled" && c.kind != "base" && c.kind != "typeonly" {
+				// the cli root repeats every plugin's cases below pools[0]: unknown keys and type-only blocks exhaustively, the rest sampled
 				if r.Intn(100) >= 12 {
 					continue
 				}
